@@ -5,6 +5,7 @@
                      base_offset + offset0 = len(output), which is then discharged at every call site (renamer, copy_compressed_name)
   C06.b re-emit      compress_rdata has the validator's name-bearing set, its rewritten data lengths equal the bytes emitted (E4), its
                      fixed parts / name starts are right, and compress() walks the additional section with OPT included
+  C06.g chain depth  every dictionary hit is conditioned on a per-entry hop count within the validator's pointer budget (KNOWN FINDING D18 on the pinned tree)
   C06.c pointers     the two bytes pushed for a pointer are (ref >> 8) | 0xc0 and ref & 0xff of the offset returned by the dictionary;
                      an offset is stored in the dictionary only under `offset < 16384` (exact constant, test dominating the store and
                      every lookup result) so it fits 14 bits; a pointer replaces only suffixes of >= 3 bytes, so a name never grows
@@ -170,6 +171,50 @@ def pointer_rule(ctx, facts, cfg):
         ctx.violation(rid, INS, 'min-suffix-length', 'the dictionary can return a hit for a suffix of <= 2 bytes: replacing it by a 2-byte pointer would not shrink (or would grow) the name', site=g['at'], config=cfg)
 
 
+def chain_depth_rule(ctx, facts, cfg):
+    """C06.g: the output must be ACCEPTED, and the validator follows at most 16 pointers per name.  An entry recorded while a name
+    is emitted designates bytes that end with the pointer emitted for that same name, so reading from an entry costs one hop more
+    than reading from the entry its name ended on: nested suffixes (a, b.a, c.b.a, ...) build chains of any depth unless a hit is
+    conditioned on a per-entry hop count.  Decided structurally: every hit returned by SuffixDict::insert is dominated by a
+    comparison of a per-entry counter (a field of Suffix other than offset / len / suffix) with a constant not above the
+    validator's budget.  (That the counter is maintained correctly is not decided here.)"""
+    rid = 'C06.g'
+    from rules import C02
+    budget = C02.policy()['pointer_max']
+    g = facts.fn(INS)
+    if g is None:
+        ctx.missing(rid, INS)
+        return
+    gd = F.single_defs(g)
+    dom = F.dominators(g)
+    some_rets = [bi for bi, b in F.blocks(g) for s in b['stmts'] if s['k'] == 'assign' and not s['place']['proj'] and s['place']['local'] == 0
+                 and s['rv']['k'] == 'aggregate' and s['rv'].get('variant') == 'Some']
+    if not some_rets:
+        ctx.violation(rid, INS, 'hit return', 'no `Some(offset)` return found in SuffixDict::insert', kind='anchor-missing', config=cfg)
+        return
+    guards = []
+    for gi, gb in F.blocks(g):
+        t = gb['term']
+        if t['k'] != 'switch':
+            continue
+        e = F.expr(g, gd, t['discr'])
+        if e[0] != 'binop' or e[1] not in ('Lt', 'Le', 'Gt', 'Ge', 'Eq', 'Ne'):
+            continue
+        rs = F.roots(g, gd, t['discr'])
+        counter = [r for r in rs if r[0] == 'load' and F.last_field(r[1]) and F.last_field(r[1])[0] == 'compress::Suffix'
+                   and F.last_field(r[1])[1] not in ('offset', 'len', 'suffix')]
+        consts = [x[1] for x in (e[2], e[3]) if x[0] == 'const' and isinstance(x[1], int)]
+        if counter and consts and max(consts) <= budget:
+            for v, tb in list(t['targets']) + [(None, t['otherwise'])]:
+                guards.append(tb)
+    ok = all(any(gb_ in dom.get(bi, ()) or gb_ == bi for gb_ in guards) for bi in some_rets)
+    ctx.instance(rid, 'SuffixDict::insert: every hit is conditioned on a per-entry hop count within the validator\'s budget of %d [%s]' % (budget, cfg), ok=ok, site=g['at'])
+    if not ok:
+        ctx.violation(rid, INS, 'hit-returned-without-chain-depth-bound',
+                      'SuffixDict::insert returns a hit whatever the number of pointers a reader must follow from that entry: nested suffixes (a., b.a., c.b.a., ...) give chains that grow by one hop per name, '
+                      'and from the 18th name on the output of compress() is refused by the parser ("Too many indirections", budget %d)' % budget, site=g['at'], config=cfg)
+
+
 def run(ctx):
     for cfg in ctx.configs():
         if cfg == 'hooks':
@@ -179,9 +224,11 @@ def run(ctx):
         reemit.dispatch_rule(ctx, facts, cfg, 'C06.b', CR, 'compression')
         reemit.accounting_rule(ctx, facts, cfg, 'C06.b', CR, havoc=8, opaque=['SuffixDict::insert'])
         reemit.rewrite_on_every_path_rule(ctx, facts, cfg, 'C06.b', CR, ('Compress::copy_compressed_name', 'Compress::copy_compressed_name_with_base_offset'), floor=3)
+        reemit.names_on_every_path_rule(ctx, facts, cfg, 'C06.f', CR, ('Compress::copy_compressed_name', 'Compress::copy_compressed_name_with_base_offset'), 'handing the name to the compressor (names inside record data are pointer targets and candidates like any other)')
         reemit.fixed_parts_rule(ctx, facts, cfg, 'C06.b', CR)
         reemit.cursor_rule(ctx, facts, cfg, 'C06.b', ['compress::Compress::compress'])
         reemit.open_ended_rule(ctx, facts, cfg, 'C06.d', 'compress::Compress::compress', ('compress::',), 6, 'the compressor')
         pointer_rule(ctx, facts, cfg)
         match_predicate_rule(ctx, facts, cfg)
+        chain_depth_rule(ctx, facts, cfg)
     ctx.trust('analysis/interp.py contracts; SuffixDict::insert treated as opaque for the accounting (its result is any Option<usize>)')
